@@ -121,7 +121,7 @@ def gen_cases(tier, seed):
     for _ in range(n):
         cfg, eff = gen_cfg(rng)
         cases.append({"t": "grid", "cfg": cfg, "eff": eff, "peer_lag": rng.choice([0, 0, 1, 3]), "eof_resends": rng.choice([0, 0, 0, 1, 2]),
-                      "second": rng.random() < 0.25})
+                      "second": rng.random() < 0.25, "busy_put": rng.choice([None, None, None, 0, 1, 2, 3, 5])})
     # large file
     for i, (mode, crc, idw, seqw) in enumerate([("ack", False, 2, 16), ("unack", True, 1, 8), ("ack", True, 4, 32), ("unack", False, 8, 16)]):
         for maxpkt in ((64, 4096) if tier == "quick" else (64, 1000, 4096)):
@@ -182,6 +182,17 @@ def run_stream(w: World, case, data_fn, size, eff, cks, want_hdr, md_want, peer_
     first_eof = None
     while ncalls < max_calls:
         pdu_in = None
+        if case.get("busy_put") == ncalls and S.h.state.name == "BUSY":
+            # the user issues another (valid) put request, towards a differently configured third entity, while this transaction is
+            # running: it is refused and the stream of the running transaction is not affected
+            try:
+                acc = w.put_to_third()
+            except Exception as e:  # noqa: BLE001
+                acc = type(e).__name__
+            if acc is not False:
+                viol.append({"clause": "put-request-while-busy-not-refused", "returned": acc, "before_call": ncalls})
+                break
+            obs["refused_put_requests_during_stream"] = 1
         if eof_seen_call is not None and ack_mode and not acked and eof_resends > 0 and first_eof is not None and ncalls - eof_seen_call > peer_lag:
             # the ACK(EOF) is late: at the expiry of the positive ACK timer the very same EOF PDU must be emitted again
             eof_resends -= 1
@@ -329,6 +340,10 @@ def run_stream(w: World, case, data_fn, size, eff, cks, want_hdr, md_want, peer_
     return viol, obs
 
 
+def S_idle(w):
+    return w.S.h.state.name == "IDLE"
+
+
 def run_case(case):
     if case["t"] == "grid":
         cfg = case["cfg"]
@@ -352,7 +367,15 @@ def run_case(case):
             nseg = -(-size // max(1, case["eff"]))
             viol, obs = run_stream(w, case, lambda o, n: data[o : o + n], size, case["eff"], cks, want_hdr, md_want, case["peer_lag"], nseg + 14 + case["peer_lag"] * 2,
                                    eof_resends=case.get("eof_resends", 0))
-            if case.get("second") and not viol and not c["metadata_only"]:
+            if case.get("second") and not viol and c["metadata_only"]:
+                # a metadata-only request is followed by an ordinary file transfer on the same sender object
+                if S_idle(w):
+                    w.cfg["metadata_only"] = False
+                    md_want = {"size": len(w.data), "src_name": w.src_path.as_posix(), "dst_name": w.dst_req_path.as_posix(), "closure": closure,
+                               "cktype": {"null": "NULL_CHECKSUM", "modular": "MODULAR", "crc32": "CRC_32", "crc32c": "CRC_32C"}[c["cks"]]}
+                    data = bytes((i * 13 + 5) & 0xFF for i in range(c["size"]))
+                    obs["file_stream_after_metadata_only_request"] = 1
+            if case.get("second") and not viol and not w.cfg["metadata_only"]:
                 # the same sender object handles a second put request for a file with other content (same configuration, next sequence number)
                 data2 = bytes((b * 7 + 3) & 0xFF for b in data) + b"tail"[: size % 3]
                 w.data = data2
@@ -426,4 +449,4 @@ def run_case(case):
 
 
 REQUIRED = {"metadata_checked": 100, "eof_checked": 100, "empty_file_eof_checked": 5, "ack_finished_checked": 20, "full_segments": 200,
-            "fd_pdu_exactly_max_packet_len": 20, "large_file_cases": 4, "large_flag_boundary_cases": 8, "mixed_id_width": 20, "request_contradicts_mib": 20, "eof_resends_checked": 100, "second_streams_on_same_sender": 100, "second_stream_after_mib_change": 30}
+            "fd_pdu_exactly_max_packet_len": 20, "large_file_cases": 4, "large_flag_boundary_cases": 8, "mixed_id_width": 20, "request_contradicts_mib": 20, "eof_resends_checked": 100, "second_streams_on_same_sender": 100, "second_stream_after_mib_change": 30, "refused_put_requests_during_stream": 100, "file_stream_after_metadata_only_request": 10}
